@@ -34,9 +34,20 @@ def param_config():
 
 
 def body_for(table_cfg, salt):
-    """position-coded row body in expanded coordinates 19..max_end+5: every column slice is unique"""
+    """position-coded row body in expanded coordinates 19..max_end+5: every column slice is unique; every third
+    row has columns that begin and end with spaces, every fifth row has blank columns"""
     top = max(f['end'] for f in table_cfg.values()) + 5
-    return ''.join(SAFE[(i * 7 + salt * 13 + (i // len(SAFE))) % len(SAFE)] for i in range(top - 19))
+    body = [SAFE[(i * 7 + salt * 13 + (i // len(SAFE))) % len(SAFE)] for i in range(top - 19)]
+    if salt % 3 == 1:
+        for f in table_cfg.values():
+            body[f['start'] - 19] = ' '
+            body[f['end'] - 20] = ' '
+    if salt % 5 == 2:
+        for j, f in enumerate(table_cfg.values()):
+            if j % 2 == 0:
+                for i in range(f['start'] - 19, f['end'] - 19):
+                    body[i] = ' '
+    return ''.join(body)
 
 
 def index_row(table_id, sub_id):
